@@ -25,10 +25,7 @@ P = {
             'distinct = distinct (setup, program)',
     'trusted_base': _COMMON_TB,
     'assumptions': ['gas price 0, so no fee enters the balance equations', 'one validator, no slashing (tokens = shares)'],
-    'level_text': 'Coq theorems about the StateDB/journal/commit model and the precompile mirror discipline: exact supply-delta '
-                  'formula for every program, conservation under the mirror-complete invariant, refutation witnesses for each '
-                  'known finding class; the model is compared with the real keeper on generated call trees on every run, and the '
-                  'property itself (supply unchanged; balances = before + received - paid) is evaluated on the real run',
-    'level_note': 'partial: the theorem is about the model; interpreter, SDK keepers and gas are outside it (see trusted base)',
+    'level_text': 'Coq theorems: the StateDB journal is a correct undo log for every sequence of cache mutations (balances, storage, logs, creations) and every snapshot; every pure EVM call tree extends the journal cleanly and a failing pure frame leaves no trace; a failed transaction changes nothing; refutation witnesses (K3) for frames that called a stateful precompile, reproduced bit-for-bit by the model. Every run compares the model with the real keeper on generated call trees and evaluates the property on the real run by a metamorphic oracle: the same transaction with the failed frames erased must end in the same state',
+    'level_note': 'partial: go-ethereum interpreter, SDK keepers and gas are modelled not verified; theorems assume a saturated cache (all existing accounts loaded) — loading is observationally irrelevant',
     'technique': 'Coq proof over a StateDB/precompile model + differential correspondence on generated EVM call trees',
 }
